@@ -18,6 +18,10 @@ TEMPLATES = {
     "t4": dict(shapes=[[2, 3, 2, 2]], maxdim=3, merge=False, ignored=[]),              # order 4
     "m3p": dict(shapes=[[2, 2], [2, 2], [2, 2]], maxdim=2, merge=False, ignored=[]),   # three params
     "v3p": dict(shapes=[[2], [2], [2]], maxdim=2, merge=False, ignored=[]),                    # three params, one 1-factor block each
+    "many": dict(shapes=[[24, 2], [2, 2]], maxdim=2, merge=False, ignored=[]),                 # a parameter with 12 blocks (two-digit block ids)
+    "m6p": dict(shapes=[[2, 2]] * 6, maxdim=2, merge=False, ignored=[]),                       # six params: 64 presence patterns
+    "rem1": dict(shapes=[[5], [3]], maxdim=4, merge=False, ignored=[]),                        # a 1-element remainder block
+    "big": dict(shapes=[[5, 4], [6]], maxdim=8, merge=False, ignored=[]),                      # factors of size 4..6 in one block
     "rect": dict(shapes=[[5, 3]], maxdim=3, merge=False, ignored=[]),                  # uneven blocks (3,3),(2,3)
 }
 DYADIC_LR = [0.5, 0.25, 0.125, 0.0625, 0.03125]
@@ -53,7 +57,7 @@ def draw_group(rng: random.Random, template: str, *, kind=None, graft=None, filt
     g.update(
         freq=freq, start=start, tol=tol if tol is not None else rng.choice([0, 1, 2]), kind=kind, method=method,
         lr=[0.0, lr1, lr2], mom=[0.0, m if m else 0.5, 0.6], b1=[0.0, b1 if b1 else 0.9, 0.7], wd=[0.0, wd1],
-        lr0=1, mom0=1 if m else 0, b10=1 if b1 else 0, wd0=1 if wd_on else 0,
+        lr0=0 if rng.random() < 0.04 else 1, mom0=1 if m else 0, b10=1 if b1 else 0, wd0=1 if wd_on else 0,
         beta2=rng.choice([1.0, 0.99, 0.9, 0.5]), beta3=beta3, eps=rng.choice([1e-3, 1e-2, 0.1, 0.5]),
         dampening=rng.choice([0.0, 0.1, 0.5]), nesterov=rng.random() < 0.4, bias_corr=rng.random() < 0.6,
         decoupled=rng.random() < 0.5,
@@ -88,8 +92,11 @@ def redraw_numeric(rng: random.Random, g: dict) -> dict:
 
 def make_draw(rng: random.Random, groups: list[dict], dtype="float64", pdtype="float64") -> dict:
     d = {"dtype": dtype, "pdtype": pdtype, "seed": rng.randrange(1 << 30), "groups": groups}
-    if rng.random() < 0.2:
+    r = rng.random()
+    if r < 0.15:
         d["grad_mode"], d["sparse_steps"] = "sparse_first", rng.choice([1, 2, 3])
+    elif r < 0.3:
+        d["grad_mode"], d["sparse_steps"] = "striped", rng.choice([2, 4, 100])
     return d
 
 
@@ -100,6 +107,6 @@ def hyper_moves(groups: list[dict], keys=("mom", "b1", "wd", "lr")) -> list[tupl
         for key in keys:
             if key == "mom" and g["mom0"] == 0 or key == "b1" and g["b10"] == 0:
                 continue  # no buffer was ever allocated: outside the documented domain
-            vals = {"mom": (0, 1, 2), "b1": (0, 1, 2), "wd": (0, 1), "lr": (1, 2)}[key]
+            vals = {"mom": (0, 1, 2), "b1": (0, 1, 2), "wd": (0, 1), "lr": (0, 1, 2)}[key]     # index 0 is the value 0.0
             out += [(gi, key, v) for v in vals]
     return out
